@@ -86,6 +86,52 @@ func runBcast(c *bcastCase) (v *hx.Violation) {
 			return mk(k, fmt.Sprintf("operand %d: %s", i, m))
 		}
 	}
+	// second request with the very same source tensor objects after the caller overwrote their contents in
+	// place (rotated by one element): the answer must follow the new contents
+	if len(a.V) > 1 || len(b.V) > 1 {
+		rot := func(t *ref.T) *ref.T {
+			o := t.Clone()
+			for i := range o.V {
+				o.V[i] = t.V[(i+1)%len(t.V)]
+			}
+			return o
+		}
+		a2, b2 := rot(a), rot(b)
+		if hx.RefillG(ga, a2) && hx.RefillG(gb, b2) {
+			func() {
+				defer func() {
+					if p := recover(); p != nil {
+						v = mk("panic", fmt.Sprintf("second request on refilled sources: %v :: %s", p, string(debug.Stack())[:400]))
+					}
+				}()
+				if c.Fn == "multi" {
+					oa, ob, err = ops.MultidirectionalBroadcast(ga, gb)
+				} else {
+					oa, ob, err = ops.UnidirectionalBroadcast(ga, gb)
+				}
+			}()
+			if v != nil {
+				return v
+			}
+			if err != nil {
+				return mk("refused", fmt.Sprintf("second request on refilled sources refused: %v", err))
+			}
+			ea2, _ := ref.BroadcastTo(a2, bs)
+			eb2, _ := ref.BroadcastTo(b2, bs)
+			for i, pair := range []struct {
+				got tensor.Tensor
+				exp *ref.T
+			}{{oa, ea2}, {ob, eb2}} {
+				got, rerr := hx.FromG(pair.got)
+				if rerr != nil {
+					return mk("unreadable-output", rerr.Error())
+				}
+				if k, m := hx.CompareT(got, pair.exp, hx.Bits); k != "" {
+					return mk(k, fmt.Sprintf("second request on the same source objects refilled in place: operand %d: %s", i, m))
+				}
+			}
+		}
+	}
 	if ref.ShapeEq(a.Shape, b.Shape) {
 		return hx.OK("same-shape")
 	}
@@ -94,7 +140,7 @@ func runBcast(c *bcastCase) (v *hx.Violation) {
 
 func checkC14(c *hx.Checker) {
 	c.Rule = "all ordered pairs of shapes of Box(rank 0..4, extents {1,2,3}) for MultidirectionalBroadcast and UnidirectionalBroadcast, int64 fill = flat index + 1; " +
-		"extents {1,2,3,4} on rank<=4 (thorough) / rank<=2 (quick); all 14 dtypes on the rank<=3 extents {1,2} sub-box; seed-rotated larger shapes (supplementary). " +
+		"extents {1,2,3,4} on rank<=4; thorough: extents {1..5} on rank<=4; all 14 dtypes on the rank<=3 extents {1,2} sub-box; all ordered pairs of 11 larger shapes (up to 5155 elements, odd counts); every case is followed by a second request on the same source tensor objects after their contents were overwritten in place. " +
 		"non-trivial = at least one axis of one operand is stretched or padded (shapes differ); distinct by (fn,dtype,shapeA,shapeB)"
 	c.Assumptions = []string{"reference = right-aligned broadcasting written as index arithmetic (ref.BroadcastTo)", "complex/string elements are opaque tags (only moved, never computed on)"}
 	type job struct {
@@ -113,14 +159,12 @@ func checkC14(c *hx.Checker) {
 		}
 	}
 	e123 := []int{1, 2, 3}
-	box := ref.Box(0, 4, e123)
-	add(ref.I64, box, box)
+	_ = e123
+	b4 := ref.Box(0, 4, []int{1, 2, 3, 4})
+	add(ref.I64, b4, b4)
 	if c.Tier == "thorough" {
-		b4 := ref.Box(0, 4, []int{1, 2, 3, 4})
-		add(ref.I64, b4, b4)
-	} else {
-		b4 := ref.Box(0, 2, []int{1, 2, 3, 4})
-		add(ref.I64, b4, b4)
+		b5 := ref.Box(0, 4, []int{1, 2, 3, 4, 5})
+		add(ref.I64, b5, b5)
 	}
 	sub := ref.Box(0, 3, []int{1, 2})
 	for _, dt := range ref.AllDT {
@@ -128,14 +172,9 @@ func checkC14(c *hx.Checker) {
 			add(dt, sub, sub)
 		}
 	}
-	// supplementary larger shapes, rotated by seed (never decides exhaustiveness)
-	big := [][]int{{5, 1, 7}, {1, 6, 1}, {7}, {2, 5, 1, 7}, {6, 7}, {5, 6, 7}, {1, 1, 1, 1, 8}}
-	rot := int(c.Seed%int64(len(big))+int64(len(big))) % len(big)
-	for i := 0; i < 4; i++ {
-		for j := 0; j < 4; j++ {
-			add(ref.F32, [][]int{big[(rot+i)%len(big)]}, [][]int{big[(rot+j)%len(big)]})
-		}
-	}
+	// larger shapes: all ordered pairs
+	big := [][]int{{5, 1, 7}, {1, 6, 1}, {7}, {2, 5, 1, 7}, {6, 7}, {5, 6, 7}, {1, 1, 1, 1, 8}, {1, 1031}, {5, 1}, {4099}, {3, 1, 1367}}
+	add(ref.F32, big, big)
 	c.ParallelFor(len(jobs), func(i int) {
 		j := jobs[i]
 		bc := &bcastCase{ReplayKind: "bcast", Fn: j.fn, A: hx.ToTJ(ref.Distinct(j.dt, j.a)), B: hx.ToTJ(ref.Distinct(j.dt, j.b))}
